@@ -69,6 +69,11 @@ structure Keeps (s s' : St) (l l' : Hdr) (cs cs' : List Cell) : Prop where
   mono : s.fresh ≤ s'.fresh
   bound : ∀ a, a ∈ idsOf cs' → a < s'.fresh
   frame : ∀ b, b ∉ idsOf cs → b < s.fresh → s'.heap b = s.heap b
+  dead : ∀ a, a ∈ idsOf cs → a ∉ idsOf cs' → s'.heap a = none
+
+/-- a node that left the list is released: absent from the heap (a later read or write of it is a fault, see `St.live`) -/
+theorem free_eq (s : St) (id : Nat) : (s.free id).heap id = none := by
+  show (if id = id then none else s.heap id) = _; rw [if_pos rfl]
 
 /-- **`unlinkn`** of the node in the middle of `pre ++ a :: post` -/
 theorem unlinkn_spec (s : St) (l : Hdr) (pre post : List Cell) (a : Cell) (m : Mem)
@@ -79,7 +84,7 @@ theorem unlinkn_spec (s : St) (l : Hdr) (pre post : List Cell) (a : Cell) (m : M
   obtain ⟨s1, ha, s2⟩ := Seg_split r.seg
   have hn := nd_of ha
   unfold unlinkn
-  simp only [hn]
+  simp only [hn, live_some, ha, Option.isSome_some, Mem.check_true]
   refine ⟨by first | trivial | rfl, ?_, ?_⟩
   · -- the triple of the header is not touched by the `if`s
     split <;> split <;> rfl
@@ -121,7 +126,7 @@ theorem unlinkn_spec (s : St) (l : Hdr) (pre post : List Cell) (a : Cell) (m : M
     have hsz := r.size
     have hhd := r.head
     have htl := r.tail
-    refine ⟨⟨n12, hseg, ?_, ?_, ?_⟩, ?_, Nat.le_refl _, ?_, ?_⟩
+    refine ⟨⟨n12, hseg, ?_, ?_, ?_⟩, ?_, Nat.le_refl _, ?_, ?_, ?_⟩
     · rcases eq_nil_or_snoc pre with e | ⟨ys, b, e⟩ <;> subst e <;> cases post <;>
         simp [nxt_append, lastOr_append] at hsz hhd htl ⊢ <;> omega
     · rcases eq_nil_or_snoc pre with e | ⟨ys, b, e⟩ <;> subst e <;> cases post <;>
@@ -154,6 +159,15 @@ theorem unlinkn_spec (s : St) (l : Hdr) (pre post : List Cell) (a : Cell) (m : M
         cases hq : lastOr pre none with
         | none => rfl
         | some q => simp only []; exact upd_ne _ _ _ _ (hpre q hq)
+    · intro a' ha' hna'
+      have e : a' = a.1 := by
+        simp only [idsOf_append, idsOf_cons, List.mem_append, List.mem_cons, not_or] at ha' hna'
+        rcases ha' with h | h | h
+        · exact absurd h hna'.1
+        · exact h
+        · exact absurd h hna'.2
+      subst e
+      exact free_eq _ _
 
 theorem ok_bne : (Stat.ok != Stat.ok) = false := by decide
 theorem oor_bne : (Stat.errOutOfRange != Stat.ok) = true := by decide
@@ -361,7 +375,7 @@ theorem addFirst_spec (s : St) (l : Hdr) (cs : List Cell) (x : Nat) (m : Mem)
   | nil =>
     have hs : l.size = 0 := r.size
     simp only [hs, if_true]
-    refine ⟨by first | trivial | rfl, by first | trivial | rfl, ⟨by simp [idsOf], ?_, by simp, rfl, rfl⟩, rfl, Nat.le_succ _, by simp [St.alloc], ?_⟩
+    refine ⟨by first | trivial | rfl, by first | trivial | rfl, ⟨by simp [idsOf], ?_, by simp, rfl, rfl⟩, rfl, Nat.le_succ _, by simp [St.alloc], ?_, (by intro _ h; simp [idsOf] at h)⟩
     · rw [Seg_cons]; exact ⟨setData_alloc s x, trivial⟩
     · intro b _ hlt; exact setData_alloc_ne s x b (Nat.ne_of_lt hlt)
   | cons c rest =>
@@ -369,7 +383,7 @@ theorem addFirst_spec (s : St) (l : Hdr) (cs : List Cell) (x : Nat) (m : Mem)
     have hh : l.head = some c.1 := r.head
     have hc : c.1 ≠ s.fresh := fun e => hf (by simp [e])
     simp only [hs, if_false, hh]
-    refine ⟨by first | trivial | rfl, by first | trivial | rfl, ⟨?_, ?_, by simp [r.size], rfl, ?_⟩, rfl, Nat.le_succ _, ?_, ?_⟩
+    refine ⟨by first | trivial | rfl, by first | trivial | rfl, ⟨?_, ?_, by simp [r.size], rfl, ?_⟩, rfl, Nat.le_succ _, ?_, ?_, (by intro a' ha' hna'; exact absurd (by simp only [idsOf_append, idsOf_cons, idsOf_nil, List.mem_append, List.mem_cons, List.not_mem_nil, or_false, false_or] at ha' ⊢; first | exact Or.inl ha' | exact Or.inr ha' | (rcases ha' with h | h | h <;> simp [h]) | (rcases ha' with h | h <;> simp [h]) | simp [ha']) hna')⟩
     · have := r.nodup
       simp only [idsOf_cons, List.nodup_cons] at this ⊢
       exact ⟨by simpa [idsOf] using hf, this⟩
@@ -410,7 +424,7 @@ theorem addLast_spec (s : St) (l : Hdr) (cs : List Cell) (x : Nat) (m : Mem)
   · subst e
     have hs : l.size = 0 := r.size
     simp only [hs, if_true]
-    refine ⟨by first | trivial | rfl, by first | trivial | rfl, ⟨by simp [idsOf], ?_, by simp, rfl, rfl⟩, rfl, Nat.le_succ _, by simp [St.alloc], ?_⟩
+    refine ⟨by first | trivial | rfl, by first | trivial | rfl, ⟨by simp [idsOf], ?_, by simp, rfl, rfl⟩, rfl, Nat.le_succ _, by simp [St.alloc], ?_, (by intro _ h; simp [idsOf] at h)⟩
     · rw [List.nil_append, Seg_cons]; exact ⟨setData_alloc s x, trivial⟩
     · intro b _ hlt; exact setData_alloc_ne s x b (Nat.ne_of_lt hlt)
   · subst e
@@ -422,7 +436,7 @@ theorem addLast_spec (s : St) (l : Hdr) (cs : List Cell) (x : Nat) (m : Mem)
     rw [List.nodup_append] at hnd
     have hcp : c.1 ∉ idsOf pre := fun hm => hnd.2.2 _ hm _ List.mem_cons_self rfl
     simp only [hs, if_false, hh]
-    refine ⟨by first | trivial | rfl, by first | trivial | rfl, ⟨?_, ?_, by simp [r.size], ?_, by rw [lastOr_append, lastOr_append]; rfl⟩, rfl, Nat.le_succ _, ?_, ?_⟩
+    refine ⟨by first | trivial | rfl, by first | trivial | rfl, ⟨?_, ?_, by simp [r.size], ?_, by rw [lastOr_append, lastOr_append]; rfl⟩, rfl, Nat.le_succ _, ?_, ?_, (by intro a' ha' hna'; exact absurd (by simp only [idsOf_append, idsOf_cons, idsOf_nil, List.mem_append, List.mem_cons, List.not_mem_nil, or_false, false_or] at ha' ⊢; first | exact Or.inl ha' | exact Or.inr ha' | (rcases ha' with h | h | h <;> simp [h]) | (rcases ha' with h | h <;> simp [h]) | simp [ha']) hna')⟩
     · have := r.nodup
       simp only [idsOf_append, idsOf_cons, idsOf_nil] at this ⊢
       rw [List.nodup_append]
@@ -580,7 +594,7 @@ theorem addAt_spec (s : St) (l : Hdr) (cs : List Cell) (x i : Nat) (m : Mem)
   have hseg0 : Seg (setData s.alloc.2.heap s.fresh x) none (pre ++ a :: post) none :=
     Seg_frame (fun b hbm => setData_alloc_ne s x b (fun e => hf (by rw [← e]; exact hbm))) r.seg
   obtain ⟨lb, lf⟩ := linkBehind_fresh s.fresh x hseg0 r.nodup hf (setData_alloc s x)
-  refine ⟨by first | trivial | rfl, by first | trivial | rfl, ⟨?_, lb, ?_, ?_, ?_⟩, ?_, Nat.le_succ _, ?_, ?_⟩
+  refine ⟨by first | trivial | rfl, by first | trivial | rfl, ⟨?_, lb, ?_, ?_, ?_⟩, ?_, Nat.le_succ _, ?_, ?_, (by intro a' ha' hna'; exact absurd (by simp only [idsOf_append, idsOf_cons, idsOf_nil, List.mem_append, List.mem_cons, List.not_mem_nil, or_false, false_or] at ha' ⊢; first | exact Or.inl ha' | exact Or.inr ha' | (rcases ha' with h | h | h <;> simp [h]) | (rcases ha' with h | h <;> simp [h]) | simp [ha']) hna')⟩
   · have := r.nodup
     simp only [idsOf_append, idsOf_cons] at this hf ⊢
     rw [List.nodup_append] at this ⊢
@@ -627,11 +641,12 @@ theorem unlinkAllLoop_spec : ∀ (cs : List Cell) (k : Nat) (s : St) (l : Hdr) (
     (unlinkAllLoop k s l (nxt cs none) log m).2.2.1 = log ++ dataOf cs ∧
     (unlinkAllLoop k s l (nxt cs none) log m).2.2.2 = Mem.freeN l.triple cs.length m ∧
     (unlinkAllLoop k s l (nxt cs none) log m).1.fresh = s.fresh ∧
-    (∀ b, b ∉ idsOf cs → b < s.fresh → (unlinkAllLoop k s l (nxt cs none) log m).1.heap b = s.heap b)
+    (∀ b, b ∉ idsOf cs → b < s.fresh → (unlinkAllLoop k s l (nxt cs none) log m).1.heap b = s.heap b) ∧
+    (∀ a, a ∈ idsOf cs → (unlinkAllLoop k s l (nxt cs none) log m).1.heap a = none)
   | [], k, s, l, log, m, r, _, _ => by
     have : unlinkAllLoop k s l (nxt [] none) log m = (s, l, log, m) := by cases k <;> rfl
     rw [this]
-    exact ⟨r, rfl, by simp, rfl, rfl, fun _ _ _ => rfl⟩
+    exact ⟨r, rfl, by simp, rfl, rfl, fun _ _ _ => rfl, fun _ h => by simp [idsOf] at h⟩
   | a :: rest, 0, _, _, _, _, _, _, hk => by simp at hk
   | a :: rest, k + 1, s, l, log, m, r, hb, hk => by
     have u := unlinkn_spec s l [] rest a m r hb
@@ -642,9 +657,19 @@ theorem unlinkAllLoop_spec : ∀ (cs : List Cell) (k : Nat) (s : St) (l : Hdr) (
     simp only [nxt_cons, unlinkAllLoop, hn]
     have ih := unlinkAllLoop_spec rest k (unlinkn s l a.1 m).2.1 (unlinkn s l a.1 m).2.2.1 (log ++ [(unlinkn s l a.1 m).1])
       (unlinkn s l a.1 m).2.2.2 uk.repr uk.bound (by simpa using hk)
-    obtain ⟨i1, i2, i3, i4, i5, i6⟩ := ih
+    obtain ⟨i1, i2, i3, i4, i5, i6, i7⟩ := ih
     have hfr : (unlinkn s l a.1 m).2.1.fresh = s.fresh := by unfold unlinkn; rfl
-    refine ⟨i1, i2.trans uk.triple, ?_, ?_, i5.trans hfr, ?_⟩
+    have hna : a.1 ∉ idsOf rest := by
+      have := r.nodup; simp only [idsOf_cons, List.nodup_cons] at this; exact this.1
+    refine ⟨i1, i2.trans uk.triple, ?_, ?_, i5.trans hfr, ?_, fun a' ha' => ?_⟩
+    rotate_right
+    · simp only [idsOf_cons, List.mem_cons] at ha'
+      by_cases hr : a' ∈ idsOf rest
+      · exact i7 a' hr
+      · have e : a' = a.1 := by rcases ha' with h | h; exact h; exact absurd h hr
+        subst e
+        rw [i6 a.1 hna (by rw [hfr]; exact hb a.1 (by simp))]
+        exact uk.dead a.1 (by simp) hna
     · rw [i3, u1]; simp
     · rw [i4, u2, uk.triple]; rfl
     · intro b hnb hlt
@@ -664,8 +689,8 @@ theorem removeAll_spec (s : St) (l : Hdr) (cs : List Cell) (m : Mem)
   have hs : l.size ≠ 0 := by rw [r.size]; exact fun e => hne (List.eq_nil_of_length_eq_zero e)
   simp only [hs, if_false, if_true]
   rw [r.head, r.size]
-  obtain ⟨i1, i2, i3, i4, i5, i6⟩ := unlinkAllLoop_spec cs cs.length s l [] m r hb (Nat.le_refl _)
-  refine ⟨by first | trivial | rfl, by rw [i3]; simp, i4, ⟨⟨by simp [idsOf], trivial, ?_, rfl, rfl⟩, ?_, ?_, by simp [idsOf], i6⟩⟩
+  obtain ⟨i1, i2, i3, i4, i5, i6, i7⟩ := unlinkAllLoop_spec cs cs.length s l [] m r hb (Nat.le_refl _)
+  refine ⟨by first | trivial | rfl, by rw [i3]; simp, i4, ⟨⟨by simp [idsOf], trivial, ?_, rfl, rfl⟩, ?_, ?_, by simp [idsOf], i6, fun a ha _ => i7 a ha⟩⟩
   · exact i1.size
   · exact i2
   · rw [i5]; exact Nat.le_refl _
@@ -675,18 +700,19 @@ triple; the callback log is the content -/
 theorem destroy_spec (s : St) (l : Hdr) (cs : List Cell) (m : Mem)
     (r : Repr s.heap l cs) (hb : ∀ x, x ∈ idsOf cs → x < s.fresh) :
     (destroy s l m).1 = dataOf cs ∧ (destroy s l m).2.2 = Mem.freeN l.triple (cs.length + 1) m ∧
-    (destroy s l m).2.1.fresh = s.fresh ∧ (∀ b, b ∉ idsOf cs → b < s.fresh → (destroy s l m).2.1.heap b = s.heap b) := by
+    (destroy s l m).2.1.fresh = s.fresh ∧ (∀ b, b ∉ idsOf cs → b < s.fresh → (destroy s l m).2.1.heap b = s.heap b) ∧
+    (∀ a, a ∈ idsOf cs → (destroy s l m).2.1.heap a = none) := by
   unfold destroy unlinknAll
   cases cs with
   | nil =>
     have hs : l.size = 0 := r.size
-    simp [hs, Mem.freeN]
+    simp [hs, Mem.freeN, idsOf]
   | cons a rest =>
     have hs : l.size ≠ 0 := by rw [r.size]; simp
     simp only [hs, if_false]
     rw [r.head, r.size]
-    obtain ⟨i1, i2, i3, i4, i5, i6⟩ := unlinkAllLoop_spec (a :: rest) (a :: rest).length s l [] m r hb (Nat.le_refl _)
-    refine ⟨by rw [i3]; simp, ?_, i5, i6⟩
+    obtain ⟨i1, i2, i3, i4, i5, i6, i7⟩ := unlinkAllLoop_spec (a :: rest) (a :: rest).length s l [] m r hb (Nat.le_refl _)
+    refine ⟨by rw [i3]; simp, ?_, i5, i6, i7⟩
     rw [i4]
     exact (Mem.freeN_succ l.triple _ m).symm
 
@@ -705,7 +731,8 @@ theorem iterAddAt_spec (s : St) (l : Hdr) (pre post : List Cell) (a : Cell) (x :
   unfold iterAddAt
   refine ⟨fun ha => by simp [ha], fun ha => ?_⟩
   have hf := fresh_notin hb
-  simp only [ha, Bool.not_true, Bool.false_eq_true, if_false, show s.alloc.1 = s.fresh from rfl]
+  have hlive : (s.heap a.1).isSome = true := Seg_live r.seg a.1 (by simp)
+  simp only [ha, Bool.not_true, Bool.false_eq_true, if_false, show s.alloc.1 = s.fresh from rfl, live_some, hlive, Mem.check_true]
   have hseg0 : Seg (setData s.alloc.2.heap s.fresh x) none (pre ++ a :: post) none :=
     Seg_frame (fun b hbm => setData_alloc_ne s x b (fun e => hf (by rw [← e]; exact hbm))) r.seg
   obtain ⟨lb, lf⟩ := linkAfter_fresh s.fresh x hseg0 r.nodup hf (setData_alloc s x)
@@ -714,7 +741,7 @@ theorem iterAddAt_spec (s : St) (l : Hdr) (pre post : List Cell) (a : Cell) (x :
       simpa using lb
     rw [nd_of (Seg_split lb').2.1]
   rw [hnew]
-  refine ⟨by first | trivial | rfl, by first | trivial | rfl, ⟨?_, lb, ?_, ?_, ?_⟩, ?_, Nat.le_succ _, ?_, ?_⟩
+  refine ⟨by first | trivial | rfl, by first | trivial | rfl, ⟨?_, lb, ?_, ?_, ?_⟩, ?_, Nat.le_succ _, ?_, ?_, (by intro a' ha' hna'; exact absurd (by simp only [idsOf_append, idsOf_cons, idsOf_nil, List.mem_append, List.mem_cons, List.not_mem_nil, or_false, false_or] at ha' ⊢; first | exact Or.inl ha' | exact Or.inr ha' | (rcases ha' with h | h | h <;> simp [h]) | (rcases ha' with h | h <;> simp [h]) | simp [ha']) hna')⟩
   · have := r.nodup
     simp only [idsOf_append, idsOf_cons] at this hf ⊢
     rw [List.nodup_append] at this ⊢
@@ -776,9 +803,10 @@ theorem diterAddAt_spec (s : St) (l : Hdr) (pre post : List Cell) (a : Cell) (x 
   have hi : pre.length < (pre ++ a :: post).length := by simp
   have hid : (idsOf (pre ++ a :: post))[pre.length]? = some a.1 := by simp [idsOf]
   have e : diterAddAt s l a.1 pre.length x m = addAt s l x pre.length m := by
+    have hlive : (s.heap a.1).isSome = true := Seg_live r.seg a.1 (by simp)
     unfold diterAddAt addAt
     rw [getNodeAt_repr r]
-    simp only [hi, if_true, hid, ok_bne, Bool.false_eq_true, if_false]
+    simp only [hi, if_true, hid, ok_bne, Bool.false_eq_true, if_false, live_some, hlive, Mem.check_true]
   rw [e]
   refine ⟨fun ha => ?_, hat⟩
   exact (addAt_spec s l (pre ++ a :: post) x pre.length m r hb).2.1 hi ha
@@ -802,7 +830,7 @@ theorem filterMutLoop_spec (pr : Nat → Bool) : ∀ (rest kept : List Cell) (k 
   | [], kept, k, s, l, m, r, hb, _ => by
     simp only [show nxt ([] : List Cell) none = none from rfl, filterMutLoop_none, List.filter_nil, List.length_nil,
       Nat.sub_self, Mem.freeN]
-    exact ⟨by first | trivial | rfl, r, rfl, Nat.le_refl _, hb, fun _ _ _ => rfl⟩
+    exact ⟨by first | trivial | rfl, r, rfl, Nat.le_refl _, hb, fun _ _ _ => rfl, fun a ha hna => absurd (by simpa using ha) hna⟩
   | a :: rest, kept, 0, s, l, m, _, _, hk => by simp at hk
   | a :: rest, kept, k + 1, s, l, m, r, hb, hk => by
     obtain ⟨_, ha, _⟩ := Seg_split r.seg
@@ -823,7 +851,12 @@ theorem filterMutLoop_spec (pr : Nat → Bool) : ∀ (rest kept : List Cell) (k 
       obtain ⟨i1, i2⟩ := filterMutLoop_spec pr rest kept k (unlinkn s l a.1 m).2.1 (unlinkn s l a.1 m).2.2.1
         (unlinkn s l a.1 m).2.2.2 uk.repr uk.bound hk'
       simp only [hp', Bool.not_false, if_true, List.filter_cons, Bool.false_eq_true, if_false, List.length_cons]
-      refine ⟨?_, i2.repr, i2.triple.trans uk.triple, Nat.le_trans uk.mono i2.mono, i2.bound, fun b hb1 hb2 => ?_⟩
+      refine ⟨?_, i2.repr, i2.triple.trans uk.triple, Nat.le_trans uk.mono i2.mono, i2.bound, fun b hb1 hb2 => ?_, fun a' ha' hna' => ?_⟩
+      rotate_right
+      · by_cases hm : a' ∈ idsOf (kept ++ rest)
+        · exact i2.dead a' hm hna'
+        · rw [i2.frame a' hm (Nat.lt_of_lt_of_le (hb a' ha') uk.mono)]
+          exact uk.dead a' ha' hm
       · rw [i1, u2, uk.triple]
         have : rest.length + 1 - (rest.filter (fun c => pr c.2)).length =
             (rest.length - (rest.filter (fun c => pr c.2)).length) + 1 := by omega
